@@ -24,8 +24,7 @@ never modified), runs the property's quick tier and stores `seeded/<ID>-<n>/{{pa
 None of these diffs was ever committed to `/repo`. Where a later `fix:` commit rewrote the lines a stored diff
 touches, the diff was re-based by hand onto the repaired function (same edit; `--stored` in seedkeep).
 
-Three rounds were run for every property (two changes per property in rounds 1 and 2, three in round 3) and a fourth
-round for ten properties (two changes each); from round 2 on the agents were told which files / functions the earlier rounds had used (and in round 3 that the harness had been
+Four rounds were run for every property (two changes per property in rounds 1, 2 and 4, three in round 3); from round 2 on the agents were told which files / functions the earlier rounds had used (and in round 3 that the harness had been
 strengthened against all of them), so that they would look elsewhere. **{n} changes** were produced
 ({len(per[1])} + {len(per[2])} + {len(per[3])} + {len(per[4])}; a few are the same edit found twice independently).
 **{missed(per[1])} of round 1, {missed(per[2])} of round 2, {missed(per[3])} of round 3 and {missed(per[4])} of round 4 were missed by the first
